@@ -12,12 +12,14 @@ import (
 	"runtime"
 	"sort"
 	"strings"
+	"sync/atomic"
 	"time"
 
 	"pgregory.net/rapid"
 
 	"github.com/regclient/regclient"
 	"github.com/regclient/regclient/scheme"
+	"github.com/regclient/regclient/types"
 	"github.com/regclient/regclient/types/descriptor"
 	"github.com/regclient/regclient/types/ref"
 	"github.com/regclient/regclient/zz_verif/audit"
@@ -60,6 +62,11 @@ type CopyOpts struct {
 	DigestTags      bool   `json:"digest_tags"`
 	IncludeExternal bool   `json:"include_external"`
 	FastCheck       bool   `json:"fast_check"`
+	// referrers filter on annotations: key must exist, and equal the value unless the value is ""
+	RefAnnotKey string `json:"ref_annot_key,omitempty"`
+	RefAnnotVal string `json:"ref_annot_val,omitempty"`
+	// a progress callback is registered (no semantic effect expected)
+	Callback bool `json:"callback,omitempty"`
 }
 
 // Case is one generated copy scenario.
@@ -73,6 +80,7 @@ type Case struct {
 	Delays      []int         `json:"delays"` // indexes into DelayTable
 	Procs       int           `json:"procs"`
 	TgtByDigest bool          `json:"tgt_by_digest"`
+	SrcForm     string        `json:"src_form,omitempty"` // how the source is named: "" = tag | digest | tag+digest
 }
 
 // DelayTable are the latencies a plan chooses from.
@@ -119,6 +127,7 @@ func Gen(t *rapid.T, o GenOptions) Case {
 	c.Pairing = rapid.SampledFrom(o.Pairings).Draw(t, "pairing")
 	io := o.Img
 	io.ExtHost = HostExt
+	io.Sha512 = true      // blobs and manifests named by sha512 digests (descriptors, index entries, the root behind the tag)
 	io.NoMediaType = true // OCI manifests without the optional mediaType field (the type then only comes from headers / the listing descriptor)
 	c.Graph = imggen.Gen(t, io)
 	c.SrcFeat = genFeat(t, "src")
@@ -135,6 +144,11 @@ func Gen(t *rapid.T, o GenOptions) Case {
 		if c.Opts.Referrers && rapid.IntRange(0, 3).Draw(t, "o_refat") == 0 {
 			c.Opts.RefArtifactType = rapid.SampledFrom([]string{"application/vnd.example.sbom", "application/vnd.example.sig"}).Draw(t, "o_refatv")
 		}
+		if c.Opts.Referrers && rapid.IntRange(0, 4).Draw(t, "o_refann") == 0 {
+			c.Opts.RefAnnotKey = rapid.SampledFrom([]string{"org.example.a", "org.example.b", "org.opencontainers.image.created", "k"}).Draw(t, "o_refannk")
+			c.Opts.RefAnnotVal = rapid.SampledFrom([]string{"", "v1", "v2", "é\"q"}).Draw(t, "o_refannv")
+		}
+		c.Opts.Callback = rapid.IntRange(0, 3).Draw(t, "o_cb") == 0
 	}
 	// pre-state
 	all := c.Graph.AllDigests()
@@ -168,6 +182,7 @@ func Gen(t *rapid.T, o GenOptions) Case {
 	}
 	c.Procs = rapid.SampledFrom([]int{1, 4, 16}).Draw(t, "procs")
 	c.TgtByDigest = rapid.IntRange(0, 7).Draw(t, "bydigest") == 0
+	c.SrcForm = rapid.SampledFrom([]string{"", "", "", "", "digest", "tag+digest"}).Draw(t, "srcform")
 	return c
 }
 
@@ -203,6 +218,7 @@ type Env struct {
 	LastParent map[string]string
 	tmp        string
 	prevProcs  int
+	cbCalls    atomic.Int64
 }
 
 var staleBody = []byte(`{"schemaVersion":2,"mediaType":"application/vnd.oci.image.manifest.v1+json","config":{"mediaType":"application/vnd.oci.empty.v1+json","digest":"sha256:44136fa355b3678a1146ad16f7e8649e94fb4fc21fe77e8310c060f61caaff8a","size":2,"data":"e30="},"layers":[],"annotations":{"stale":"yes"}}`)
@@ -343,6 +359,12 @@ func Setup(c Case) (*Env, error) {
 	if e.TgtRef, err = mk(e.Tgt, e.TgtTag); err != nil {
 		return nil, err
 	}
+	switch c.SrcForm {
+	case "digest":
+		e.SrcRef = e.SrcRef.SetDigest(e.RootDig)
+	case "tag+digest":
+		e.SrcRef = e.SrcRef.AddDigest(e.RootDig)
+	}
 	if c.TgtByDigest {
 		e.TgtRef = e.TgtRef.SetDigest(e.RootDig)
 		e.PreTag = ""
@@ -371,11 +393,19 @@ func (e *Env) ImageOpts() []regclient.ImageOpts {
 		out = append(out, regclient.ImageWithForceRecursive())
 	}
 	if o.Referrers {
+		var ro []scheme.ReferrerOpts
 		if o.RefArtifactType != "" {
-			out = append(out, regclient.ImageWithReferrers(scheme.WithReferrerMatchOpt(matchAT(o.RefArtifactType))))
-		} else {
-			out = append(out, regclient.ImageWithReferrers())
+			ro = append(ro, scheme.WithReferrerMatchOpt(matchAT(o.RefArtifactType)))
 		}
+		if o.RefAnnotKey != "" {
+			ro = append(ro, scheme.WithReferrerAnnotations(map[string]string{o.RefAnnotKey: o.RefAnnotVal}))
+		}
+		out = append(out, regclient.ImageWithReferrers(ro...))
+	}
+	if o.Callback {
+		out = append(out, regclient.ImageWithCallback(func(kind types.CallbackKind, instance string, state types.CallbackState, cur, total int64) {
+			e.cbCalls.Add(1)
+		}))
 	}
 	if o.DigestTags {
 		out = append(out, regclient.ImageWithDigestTags())
@@ -428,14 +458,31 @@ func (e *Env) SrcView() audit.View {
 func (e *Env) Required() (map[string][]byte, map[string]string, []audit.Problem) {
 	o := e.C.Opts
 	ao := audit.Opts{IncludeExternal: o.IncludeExternal, Referrers: o.Referrers, DigestTags: o.DigestTags}
-	if o.RefArtifactType != "" {
-		at := o.RefArtifactType
-		ao.RefFilter = func(d map[string]any) bool { return d["artifactType"] == at }
+	if o.RefArtifactType != "" || o.RefAnnotKey != "" {
+		ao.RefFilter = e.RefMatch
 	}
 	ao.Exempt = func(d string, root bool) int { return e.ExemptLevel(d) }
 	r := audit.ClosureEx(e.SrcView(), e.RootDig, e.C.Graph.Nodes[e.C.Graph.Root].MediaType, ao)
 	e.LastParent = r.Parent
 	return r.Content, r.Manifests, r.Problems
+}
+
+// RefMatch tells whether a referrer (descriptor as built by audit.RawReferrers) passes the
+// generated referrers filter: artifact type equal, annotation key present (and equal to the
+// value unless the value is empty).
+func (e *Env) RefMatch(d map[string]any) bool {
+	o := e.C.Opts
+	if o.RefArtifactType != "" && d["artifactType"] != o.RefArtifactType {
+		return false
+	}
+	if o.RefAnnotKey != "" {
+		ann, _ := d["annotations"].(map[string]string)
+		v, ok := ann[o.RefAnnotKey]
+		if !ok || (o.RefAnnotVal != "" && v != o.RefAnnotVal) {
+			return false
+		}
+	}
+	return true
 }
 
 // UnderUnknownEntry tells whether digest d is (or is required through) an
